@@ -538,8 +538,12 @@ func RunHistory(h History) *Trace {
 			allHTTP = true
 		default:
 		}
-		if s == a && allHTTP {
-			break
+		if s == a && allHTTP && hs.Rec.Settled(hs.Cfg.RetryAttempts) {
+			time.Sleep(300 * time.Microsecond)
+			if hs.Rec.Settled(hs.Cfg.RetryAttempts) {
+				break
+			}
+			continue
 		}
 		if time.Now().After(deadline) {
 			if !anyStopped {
